@@ -16,6 +16,16 @@ CHECKS = {
          "JSON leg not covered (reflection); field lengths enumerated by forking; url.Values treated as a map (no percent-encoding)", "4 C18"),
 }
 
+ENGINE_NOTE = "the engine runs on MemStore, an in-memory specification of relationtuple.Manager/Traverser over K symbolic rows; config getters overridden; logger/tracer no-ops; stores, pools and configuration families bounded as listed in the evidence; schedules: deterministic scheduler only (delay bound 0)"
+CHECKS.update({
+ "C01": ("the real check engine (checkIsAllowed, rewrites, binop, the concurrent checkgroup, visited set) is executed symbolically on K symbolic rows for families of rewrite configurations in both modes; the decision is compared with the well-founded relationship-graph semantics expressed as a formula over the same symbolic rows, one solver query per path",
+         ENGINE_NOTE, "4 C01"),
+ "C02": ("request-depth clamp: Check(r) under global G equals Check(0) under eff(r,G) for a fully symbolic 64-bit r; fail-closed: whatever is allowed under depth/width limits is allowed by the unbounded semantics formula",
+         ENGINE_NOTE, "4 C02"),
+ "C03": ("the k-th storage call of the check fails (k symbolic over every call position, transient or persistent): the answer is an error or the fault-free answer, never allowed-for-denied, never allowed-with-error; hangs are detected as deadlocks of the modelled scheduler",
+         ENGINE_NOTE + "; faults are injected at the MemStore boundary, so counterexamples cannot be replayed against the real persister", "4 C03"),
+})
+
 NOT_APPLICABLE = {}
 
 def main():
